@@ -591,6 +591,22 @@ def _merge(a, b):
     return a
 
 
+def _inversions(edges):
+    """Pairs of lock classes (by creation site) acquired in both orders somewhere in the explored
+    runs: potential AB-BA cycles.  Informational: a pair is a deadlock only if some schedule
+    realises it on the same two lock instances, which the scheduler reports as a violation; pairs of
+    the same class (e.g. outer future -> inner future) are hierarchical and listed separately."""
+    es = set(tuple(e) for e in edges)
+    out = []
+    same = 0
+    for (a, b) in sorted(es):
+        if a == b:
+            same += 1
+        elif a < b and (b, a) in es:
+            out.append([a, b])
+    return {"distinct_class_pairs_taken_in_both_orders": out[:40], "same_class_nestings": same}
+
+
 def write_evidence(mod, prop, tier, vseed, agg, wall_s, n_new, known_hits, known_reported, jobs):
     EVD = os.environ.get("VERIF_EVIDENCE_DIR", os.path.join(VERIF, "evidence"))
     os.makedirs(EVD, exist_ok=True)
@@ -616,6 +632,7 @@ def write_evidence(mod, prop, tier, vseed, agg, wall_s, n_new, known_hits, known
         "faults_and_probes_fired": agg["probes"],
         "distinct_preempted_site_resumed_kind_pairs_sum_over_workers": agg["pairs"],
         "lock_order_edges": len(agg["edges"]),
+        "lock_order_inversions_by_creation_site": _inversions(agg["edges"]),
         "runs_hitting_step_cap": agg["step_caps"],
         "harness_errors": agg["harness_errors"],
         "truncated_by_wall_clock": agg["truncated"],
